@@ -288,6 +288,39 @@ def fingerprint(fn) -> str:
     return hashlib.sha1((ast.dump(fn.args) + "|" + "".join(ast.dump(x) for x in fn.body) + "|" + type(fn).__name__).encode()).hexdigest()[:16]
 
 
+def loose_fingerprint(fn) -> str:
+    """Fingerprint of the body up to a consistent renaming of parameters and locals and up to the names of private attributes
+    (`self._helper(..)`): what a 'rename the private names of this class' refactoring leaves unchanged."""
+    import copy
+    import hashlib
+
+    f2 = copy.deepcopy(fn)
+    body = list(f2.body)
+    if body and isinstance(body[0], ast.Expr) and isinstance(body[0].value, ast.Constant) and isinstance(body[0].value.value, str):
+        body = body[1:]
+    a = f2.args
+    local = [x.arg for x in a.posonlyargs + a.args + a.kwonlyargs] + ([a.vararg.arg] if a.vararg else []) + ([a.kwarg.arg] if a.kwarg else [])
+    for st in body:
+        for n in ast.walk(st):
+            if isinstance(n, ast.Name) and isinstance(n.ctx, ast.Store) and n.id not in local:
+                local.append(n.id)
+            elif isinstance(n, ast.ExceptHandler) and n.name and n.name not in local:
+                local.append(n.name)
+    ren = {nm: f"v{i}" for i, nm in enumerate(local)}
+    for n in [x for st in body for x in ast.walk(st)] + list(ast.walk(a)):
+        if isinstance(n, ast.Name) and n.id in ren:
+            n.id = ren[n.id]
+        elif isinstance(n, ast.arg) and n.arg in ren:
+            n.arg = ren[n.arg]
+        elif isinstance(n, ast.Attribute) and n.attr.startswith("_") and not n.attr.startswith("__"):
+            n.attr = "_P"
+        elif isinstance(n, ast.ExceptHandler) and n.name in ren:
+            n.name = ren[n.name]
+        elif isinstance(n, ast.keyword) and n.arg in ren:
+            pass  # keyword names at call sites belong to the callee
+    return hashlib.sha1((ast.dump(a) + "|" + "".join(ast.dump(x) for x in body) + "|" + type(fn).__name__).encode()).hexdigest()[:16]
+
+
 def canonical_roles(trees: Dict[str, ast.Module]) -> Dict[str, str]:
     """Rewrites the trees in place; returns {usual name: actual name} for everything that was found under another name."""
     from .known_names import BODY_FINGERPRINT, KNOWN_FUNCTIONS
@@ -307,6 +340,21 @@ def canonical_roles(trees: Dict[str, ast.Module]) -> Dict[str, str]:
         orig = BODY_FINGERPRINT.get(fingerprint(n))
         if orig is not None and orig not in present and orig not in mapping and n.name not in mapping.values():
             mapping[orig] = n.name
+    # 0b. the same up to a consistent renaming of parameters / locals / private attribute names
+    try:
+        from .known_names import LOOSE_FINGERPRINT
+    except ImportError:  # table not generated yet
+        LOOSE_FINGERPRINT = {}
+    loose: Dict[str, list] = {}
+    for n in unknown:
+        if n.name in mapping.values():
+            continue
+        orig = LOOSE_FINGERPRINT.get(loose_fingerprint(n))
+        if orig is not None and orig not in present and orig not in mapping:
+            loose.setdefault(orig, []).append(n)
+    for orig, ns in loose.items():
+        if len({x.name for x in ns}) == 1:  # one candidate name (the sync and async twins may share it)
+            mapping[orig] = ns[0].name
     for canon, cls, pred in ROLES:
         defs = list(_defs(trees, cls))
         if any(fn.name == canon for _, fn in defs) or canon in mapping:
